@@ -83,6 +83,37 @@ def strip_lines(s):
     return ";".join(p.split("@")[0] for p in s.split(";") if p)
 
 
+NEW_OPS = ("DropN", "Invoke", "InvokeSlot", "SuperInvoke", "Dup")       # instructions only the optimiser writes
+
+
+def lines_spec(inp, out):
+    """"Line numbers stay attached to the instructions they came from", judged on the real output: the instructions the
+    optimiser copies, with their lines, form an order-preserving subsequence of the input pairs; an instruction it writes
+    itself carries the line of one of the input instructions it replaced (those between its copied neighbours).
+    Returns None or a message."""
+    ip = [x for x in inp.split(";") if x]
+    op = [x for x in out.split(";") if x]
+    pos, k = [], 0
+    for x in op:
+        if x.split("@")[0].split()[0] in NEW_OPS:
+            pos.append(None)
+            continue
+        while k < len(ip) and ip[k] != x:
+            k += 1
+        if k == len(ip):
+            return "output instruction %s does not occur (with that line, in order) in the input" % x
+        pos.append(k)
+        k += 1
+    for j, x in enumerate(op):
+        if pos[j] is not None:
+            continue
+        lo = max([q for q in pos[:j] if q is not None] or [-1])
+        hi = min([q for q in pos[j + 1:] if q is not None] or [len(ip)])
+        if x.split("@")[1] not in {y.split("@")[1] for y in ip[lo + 1:hi]}:
+            return "written instruction %s carries a line none of the instructions it replaced has" % x
+    return None
+
+
 def fixture_files():
     return sorted(glob.glob(os.path.join(common.REPO, "laythe_vm", "fixture", "**", "*.lay"), recursive=True))
 
@@ -134,6 +165,10 @@ def check_streams(ctx, label, streams, expect_post=None, nontrivial_all=False):
         ctx.count_case(streams[i], nontrivial=changed or nontrivial_all)
         if wd and verdict != "equiv" and spec_bad is None:
             spec_bad = (i, "optimised code is not observationally equivalent to its input (free semantics)")
+        if wd and spec_bad is None:
+            lm = lines_spec(streams[i], io[i])
+            if lm:
+                spec_bad = (i, "line numbers do not stay attached to their instructions: " + lm)
     for i, o in enumerate(io):
         flags = xo[i].split("|")[0].split() if i < len(xo) else ["0", "0"]
         if o.startswith("PANIC") and flags == ["1", "1"] and spec_bad is None:
@@ -195,6 +230,8 @@ def impl_breaks_spec(s):
     if not x or x[0].split("|")[0].split() != ["1", "1"]:
         return False
     if o.startswith("PANIC"):
+        return True
+    if lines_spec(s, o):
         return True
     _, e, _ = common.run_lines([common.DRIVER, "peepequiv"], ["%s => %s" % (s, o)])
     return bool(e) and e[0] == "differ"
